@@ -359,6 +359,12 @@ class Scheduler:
             self.task_states[tid] = LocalStatus.KILLED
         except TaskFailedError:
             self.task_states[tid] = LocalStatus.FAILED
+        except Exception:
+            # E.g. the process could not be started, the log files could not be
+            # written, or a dependency id is unknown. The task must not be left
+            # in a non-final state, since its dependents wait for it.
+            logger.exception("Task %s failed unexpectedly", name)
+            self.task_states[tid] = LocalStatus.FAILED
         else:
             self.task_states[tid] = LocalStatus.COMPLETED
         finally:
